@@ -10,8 +10,9 @@
                model) and the implementation differ on a projected observable of some step.
    [holds]:    the system property on the OBSERVED trace and the generator's own bookkeeping (which jar
                entry a presented cookie is, which login it descends from), written without the model's
-               code path: clauses SYS_identity_vouched, SYS_revocation_propagates (with the in-flight-code
-               and outage exceptions of the theorem), SYS_signout_propagates, SYS_no_cross_talk.
+               code path: the clauses PROVED in props/IntegrationSystem.v — SYS_identity_vouched,
+               SYS_revocation_propagates_partial (with the in-flight-code and outage exceptions),
+               SYS_signout_propagates, SYS_no_cross_talk_partial, and the authenticator-side clauses.
    No proofs in this file. *)
 From V Require Export Base CorrBase Validators SystemAll.
 From V Require ProxyCore ProxyAll AuthAll Hostmux RespHeaders ReqHeaders Callback CorrProxy Corr_C09 Corr_C07.
@@ -187,6 +188,7 @@ Record aobs := {
   oa_pres : option F.session;     (* the presented session cookie of this provider, as opened *)
   oa_uri : str;                   (* the redirect_uri the request presented *)
   oa_creds : bool;                (* the request presented the client id AND secret the authenticator is configured with *)
+  oa_sig_ok : bool;               (* its sig parameter is a signature the PROXY issued (for /sign_in, /sign_out: unchanged) *)
   oa_revoked : option Z           (* instant the presented cookie's grant was revoked, if it was *)
 }.
 
@@ -294,10 +296,15 @@ Definition proxy_agree (sd : sysdep) (host : str) (now : Z) (m : pout) (o : pobs
   list_eqb pcall_eqb (P.oc_calls oc) (op_calls o) &&
   list_eqb acall_eqb (po_idp m) (op_idp o).
 
+(* a Location that carries a caller-supplied URI is compared up to its first '?': what follows may hold a
+   signature, a time stamp and a sealed flow record, which the model names differently *)
+Fixpoint cut_q (s : str) : str :=
+  match s with [] => [] | c :: r => if N.eqb c 63 then [] else c :: cut_q r end.
+
 Definition aloc_agree (d : A.deployment) (m : A.location) (o : aloc) : bool :=
   match m, o with
   | A.LNone, ALNone => true
-  | A.LVerbatim src, ALText t => str_eqb (Url.hex_escape_non_ascii src) t
+  | A.LVerbatim src, ALText t => str_eqb (cut_q (Url.hex_escape_non_ascii src)) (cut_q t)
   | A.LClean p, ALText t => str_eqb p t
   | A.LCode src s, ALCode head (Some s') _ =>
       fsess_close s s' &&
@@ -305,7 +312,7 @@ Definition aloc_agree (d : A.deployment) (m : A.location) (o : aloc) : bool :=
       | Some pre => Corr_C07.next_is_delim head pre
       | None => false
       end
-  | A.LIdP st, ALIdp (Some st') => str_eqb st st'
+  | A.LIdP st, ALIdp (Some st') => str_eqb (cut_q st) (cut_q st')
   | _, _ => false
   end.
 
@@ -385,8 +392,8 @@ Definition creds_agree : bool := str_eqb (sd_psecret sd) (A.d_client_secret d_a)
 
 Definition slack : Z := 3.
 
-(* SYS_revocation_propagates on one served request. [strict]: the clause at full strength (refuted: finding K2);
-   otherwise the proved one, which admits a proxy login AFTER the revocation (a code minted before it). *)
+(* SYS_revocation_propagates on one served request. [strict]: the clause at full strength (refuted, not judged);
+   otherwise the proved one, which allows a proxy login AFTER the revocation (a code minted before it). *)
 Definition revocation_ok (strict : bool) (now V : Z) (ch : chain) (outs : list Z) : bool :=
   match ch_revoked ch with
   | None => true
@@ -397,7 +404,7 @@ Definition revocation_ok (strict : bool) (now V : Z) (ch : chain) (outs : list Z
   end.
 
 (* SYS_identity_vouched / SYS_no_cross_talk on one backend receipt. [strict]: with "the code was handed to THIS
-   Host's callback" (refuted: finding K1). *)
+   Host's callback" (refuted, not judged). *)
 Definition identity_ok (strict : bool) (now : Z) (host path : str) (o : pobs) (b : bseen) : bool :=
   match route_of host with
   | None => false
@@ -414,7 +421,7 @@ Definition identity_ok (strict : bool) (now : Z) (host path : str) (o : pobs) (b
             (* the login: on this Host, for e, a redeem call, both services agreeing on the client credentials *)
             str_eqb (ch_login_host ch) host && str_eqb (ch_login_email ch) e && ch_login_redeem ch &&
             (ch_login_now ch <=? now) && creds_agree &&
-            (* C11: THIS upstream's login gate admits e (under the most favourable group answer) *)
+            (* C11: THIS upstream's login gate passes e (under the most favourable group answer) *)
             login_gate lower (Hostmux.u_policy (P.up_hm u)) e (GroupsOk (p_groups (Hostmux.u_policy (P.up_hm u)))) &&
             (* the code: for e, minted earlier, for a redirect_uri in a configured root domain, signed by the proxy *)
             str_eqb (ch_code_email ch) e && (ch_code_now ch <=? ch_login_now ch + slack) &&
@@ -443,7 +450,7 @@ Definition auth_ok (now : Z) (o : aobs) : bool :=
      redirect_uri in a configured root domain, and never for a revoked grant *)
   match oa_loc o with
   | ALCode head code _ =>
-      N.eqb (oa_route o) 2 && in_domain_uri (oa_uri o) &&
+      N.eqb (oa_route o) 2 && in_domain_uri (oa_uri o) && oa_sig_ok o &&
       match code, oa_pres o with
       | Some cs, Some ps => str_eqb (F.s_email cs) (F.s_email ps) && (now <=? F.s_lifetime ps + slack) && negb (nilb (oa_calls o))
       | _, _ => false
@@ -451,9 +458,15 @@ Definition auth_ok (now : Z) (o : aobs) : bool :=
       match oa_revoked o with None => true | Some _ => false end
   | _ => true
   end &&
-  (* a session cookie: set by /callback after the IdP exchanged a code, or by /sign_in as a re-save of the presented one *)
+  (* a session cookie: set by /callback after the IdP exchanged a code, or by /sign_in as a re-save of the presented one;
+     C19: /sign_out clears a live session's cookie only after asking the IdP to revoke *)
   forallb (fun op => match op with
-                     | F.OpClear => true
+                     | F.OpClear =>
+                         negb (N.eqb (oa_route o) 3) ||
+                         match oa_pres o with
+                         | Some _ => existsb (fun c => match c with A.CRevoke _ => true | _ => false end) (oa_calls o)
+                         | None => true
+                         end
                      | F.OpSet s =>
                          (N.eqb (oa_route o) 4 && existsb is_redeem_call (oa_calls o) &&
                           close (now + A.d_lifetime d_a) (F.s_lifetime s)) ||
@@ -567,6 +580,7 @@ Definition model_aobs (sd : sysdep) (st : state) (q : A.request) (o : aout) : ao
      oa_uri := B.form_get A.k_redirect_uri (fst (B.compute_form (A.inner q rest)));
      oa_creds := str_eqb (B.presented_id (A.inner q rest)) (A.d_client_id (sd_a sd)) &&
                  str_eqb (B.presented_secret (A.inner q rest)) (A.d_client_secret (sd_a sd));
+     oa_sig_ok := match presented_mac st q with Some _ => true | None => false end;
      oa_revoked := first_rev (st_idp st) (auth_grant sd st q) |}.
 
 Section ModelTrace.
@@ -600,28 +614,15 @@ Definition msteps_of_case (c : case) : list mstep :=
 Definition holds_case (strict : bool) (c : case) : bool :=
   holds_gen (tab_match (cs_match c)) (tab_replace (cs_replace c)) (lower_tab (cs_lower c)) (cs_sd c) strict (msteps_of_case c).
 
-(* the property at full strength *)
-Definition holds (c : case) : bool := holds_case true c.
+(* The monitor that is applied: [strict = false], i.e. exactly the clauses PROVED of the composed model
+   (SYS_identity_vouched, SYS_revocation_propagates_partial, SYS_signout_propagates, SYS_no_cross_talk_partial and the
+   authenticator-side clauses); SYS_monitor_accepts_model is the statement for this monitor. [holds_gen true] adds the
+   two clauses of the system-level wish list that are FALSE of the faithful model (a code is bound to the redirect it
+   was issued for; revocation reaches codes in flight): they are stated by none of the properties C01-C20, so histories
+   showing that behaviour are ordinary agreeing cases; the strict variant is kept only for SYS_monitor_discriminates. *)
+Definition holds (c : case) : bool := holds_case false c.
 
-(* known findings: the observation satisfies everything that is PROVED of the model (holds_case false) and fails only
-   the clause whose refutation is a theorem:
-     41 = IntSystem-K1  a code handed to one Host's callback was redeemed by another Host's callback
-     42 = IntSystem-K2  a code minted before the grant was revoked was redeemed after it *)
-Definition cross_host_step (sd : sysdep) (m : mstep) : bool :=
-  match ms_kind m, ms_obs m with
-  | MProxy host _, OP o =>
-      match op_chain o with
-      | Some ch => negb (nilb (op_seen o)) && negb (str_eqb (ch_code_uri ch) (callback_uri sd host))
-      | None => false
-      end
-  | _, _ => false
-  end.
-Definition known (c : case) : N :=
-  if holds_case false c then
-    if existsb (cross_host_step (cs_sd c)) (msteps_of_case c) then 41%N else 42%N
-  else 0%N.
-
-Definition judge (c : case) : N := code (mismatch c) (holds c) (known c).
+Definition judge (c : case) : N := code (mismatch c) (holds c) 0.
 
 (* classes: 1000 * (#proxy steps that reached a backend with identity, capped) + 100 * (#logins at the IdP, capped)
    + 10 * (revocation / sign-out / outage present) + length class *)
@@ -669,9 +670,9 @@ Definition mk_pobs (status : N) (seen : list bseen) (loc : ploc) (eff : PC.cooki
   {| op_status := status; op_seen := seen; op_loc := loc; op_eff := eff; op_calls := calls; op_idp := idp;
      op_pres := pres; op_chain := ch; op_outs := outs |}.
 Definition mk_aobs (status : N) (loc : aloc) (sess : list F.cookie_op) (csrf : list F.set_cookie) (calls : list A.call)
-    (json : option B.body) (route : N) (pres : option F.session) (uri : str) (creds : bool) (revoked : option Z) : aobs :=
+    (json : option B.body) (route : N) (pres : option F.session) (uri : str) (creds sig_ok : bool) (revoked : option Z) : aobs :=
   {| oa_status := status; oa_loc := loc; oa_sess := sess; oa_csrf := csrf; oa_calls := calls; oa_json := json;
-     oa_route := route; oa_pres := pres; oa_uri := uri; oa_creds := creds; oa_revoked := revoked |}.
+     oa_route := route; oa_pres := pres; oa_uri := uri; oa_creds := creds; oa_sig_ok := sig_ok; oa_revoked := revoked |}.
 Definition mk_step (now : Z) (e : sevent) (o : sobs) : sstep := {| sp_now := now; sp_ev := e; sp_obs := o |}.
 Definition mk_case (sd : sysdep) (lo : list (str * str)) (m : list (str * str * bool)) (rp : list (str * str * str * str))
     (t0 : Z) (steps : list sstep) : case :=
